@@ -4,7 +4,9 @@ Coq: Properties_C01.v (token-level print/parse round trip of the Part 21 paramet
 syntax, integer and string literal round trips).  Correspondence / oracle: generated
 conforming populations of schemas/verif_all.exp in random layouts through the real
 reader and writer (h_file), compared with an independent Part 21 parser."""
+import itertools
 import os
+import re
 import shutil
 import sys
 
@@ -25,7 +27,7 @@ END = "ENDSEC;\nEND-ISO-10303-21;\n"
 KNOWN_BAD = {
     "comment_before_delimiter": "#1=POINT('a'/* c */,1.,2.,$);\n#2=POINT('b',1./* c */,2.,3);\n",
     "comment_with_quote": "#1=POINT('a',/* ' */1.,2.,$);\n#2=POINT('b',1.,2.,3);\n",
-    "comment_in_aggregate": "#4=POLY((#1,/* c */#1),(1.,2.,3.),('a','b'),(1,2),((1,2),(3)),(.RED.),$,(LABEL('x')),(),(.T.));\n#1=POINT('a',1.,2.,$);\n",
+    "comment_in_aggregate": "#4=POLY((#1,/* c */#1),(1.,2.,3.),('a','b'),(1,2),((1,2),(3)),(.RED.),$,(LABEL('x')),(),(.T.),());\n#1=POINT('a',1.,2.,$);\n",
     "comment_in_complex": "#1=(BASE(1)/* c */EXTRA(.RED.)LEFTY('l'));\n#2=POINT('b',1.,2.,3);\n",
 }
 
@@ -142,7 +144,9 @@ def main(tier, seed):
     pr = coq_prove(PID)
     proof_coverage(res, pr, ["the Part 21 reader/writer as a whole is NOT modelled in Coq: the theorems cover the "
                              "token-level parameter syntax (print/parse round trip), integer and string literal "
-                             "round trips; everything else is the file-level correspondence/oracle of this check",
+                             "round trips, and the end of a record as the first pass finds it (SkipInstance: coq/P21Skip.v, "
+                             "compared with read_func.cc on every text of up to 5 (quick) / 6 (thorough) characters over ' / * ; a blank \\ S); "
+                             "everything else is the file-level correspondence/oracle of this check",
                              "independent parser tools/p21tok.py and generator tools/popgen.py"])
     if pr["forbidden"]:
         res.violation("forbidden vernacular in coq/", {"forbidden": pr["forbidden"]}, found_input=False)
@@ -224,10 +228,59 @@ def main(tier, seed):
                 known.append((f[:-4], open(os.path.join(kdir, f), "rb").read()))
     for sig, data in known:
         evals += 1
+        # the same file without its comments must read and write back: otherwise the file, not the reader, is at fault
+        ctl = judge(hfile, wdir, re.sub(rb"/\*.*?\*/", b"", data, flags=re.S), None)
+        if ctl:
+            res.violation("GENERATOR BUG: the file kept for the open finding %s fails without its comments too: %s" % (sig, ctl), {}, found_input=False)
+            continue
         msg = judge(hfile, wdir, data, None)
         if msg:
             path = save_case(res, wdir, "known-%s.p21" % sig, data)
             res.violation("%s: %s" % (sig, msg), {"input_file": path}, signature=sig)
+    # ---- the end of a record as the first pass sees it: SkipInstance() vs coq/P21Skip.v on every short text over
+    # the characters that matter to it (apostrophe, slash, asterisk, semicolon, backslash S for the page escape, NUL, blank)
+    skip_cmp = skip_dis = skip_wf = 0
+    try:
+        hlex = build_harness(bdir, "h_lex")
+        alpha = ["'", "/", "*", ";", "a", " ", "\\", "S"]
+        texts = []
+        for n_ in range(0, (6 if tier == "quick" else 7)):
+            for tup in itertools.product(alpha, repeat=n_):
+                texts.append("".join(tup))
+        texts += ["A('x;',/* ; ' */ #1) ; rest", "A('x", "/*/ ;*/ /;x", "A(/* " + "c" * 9000 + " */1);#2", "A('it''s;',$);B", "A('\\S\\'';');B",
+                  "(A(1)B('/*'))/* ; */;C", "A(1)\x00;B", "/* never closed ;", "A(/**/);", "A(/***/);", "A(/* * / ;*/);x"]
+        texts = [t.replace("\\x00", "\x00") for t in texts]
+        reqs = ["K " + t.encode("latin-1").hex() for t in texts]
+        rci, oi, _e = sh([hlex], input="\n".join(reqs).encode() + b"\n", timeout=1800)
+        rcm, om, _e = sh([driver("drv_c09")], input="\n".join(reqs).encode() + b"\n", timeout=1800)
+        li, lm = oi.split("\n"), om.split("\n")
+        if rci != 0:
+            res.violation("h_lex died on the SkipInstance stream (status %d)" % rci, {}, found_input=False)
+        wf = re.compile(r"^(?:[^';/\x00]|'(?:[^'\\]|''|\\\\|\\S\\.)*'(?!')|/\*(?:[^*]|\*(?!/))*\*/|/(?!\*))*;", re.S)
+        for k_, t in enumerate(texts):
+            evals += 1
+            skip_cmp += 1
+            a = li[k_].split() if k_ < len(li) else []
+            m = lm[k_].split() if k_ < len(lm) else []
+            if len(a) < 5 or len(m) < 2:
+                skip_dis += 1
+                continue
+            same = a[1] == m[1] and (a[1] == "0" or a[4] == m[4])
+            if not same:
+                skip_dis += 1
+                if skip_dis <= 5:
+                    res.violation("model P21Skip.v and SkipInstance() disagree on %r: reader %s, model %s" % (t, " ".join(a), " ".join(m)),
+                                  {"input_hex": t.encode("latin-1").hex(), "replay": "echo 'K %s' | %s" % (t.encode("latin-1").hex(), hlex),
+                                   "theorem_or_correspondence": "correspondence C01: coq/P21Skip.v vs read_func.cc SkipInstance"}, found_input=False)
+            # oracle, independent of the model: a text that starts with a well-formed record ends at that record's semicolon
+            mm = wf.match(t)
+            if mm:
+                skip_wf += 1
+                if not (a[1] == "1" and int(a[4]) == len(t) - mm.end()):
+                    res.violation("SkipInstance() does not end the well-formed record %r at its semicolon: %s (%d bytes should be left)" % (t[:60], " ".join(a), len(t) - mm.end()),
+                                  {"input_hex": t.encode("latin-1").hex(), "replay": "echo 'K %s' | %s" % (t.encode("latin-1").hex(), hlex)})
+    except BuildError as e:
+        res.violation("build failed: %s" % e, {"error": str(e)}, found_input=False)
     shutil.rmtree(wdir, ignore_errors=True)
     if not pr["ok"]:
         res.violation("Properties_C01.v no longer checks (%s)" % ", ".join(pr["failed"] or ["see log"]),
@@ -245,6 +298,7 @@ def main(tier, seed):
         "samples": samples or ["(none)"],
         "traces_validated_against_impl": evals,
         "feature_histogram": feature_hist,
+        "skip_instance_stream": {"texts": skip_cmp, "well_formed_records": skip_wf, "disagreements": skip_dis},
         "oracle_failures": fails,
         "unproved_clauses": ["byte-level reader/writer of whole files (L3/L4) is covered by the oracle only",
                              "reals with more than 15 significant digits: compared numerically to 15 digits"],
